@@ -65,7 +65,7 @@ theorem C20_expr_partial (env : Env) (n : Node) (h : covE env n = true)
     (s s' : St) (ls : List Line) (hg : genExpr env n s = .ok ((), s', ls)) :
     delta ls = some ⟨0, x87Of n⟩ ∧ s'.depth = s.depth := by
   have := (expr_ok env n h).elim hg
-  simpa [x87Of, xOf] using this
+  simpa [x87Of, xOf, Straight] using this
 
 example : covE { fpic := false, types := [] }
     (.binop ⟨none, 1, 1⟩ .add (.num ⟨none, 1, 1⟩ 1 0 0 0 0) (.num ⟨none, 1, 1⟩ 2 0 0 0 0)) = true := by
@@ -86,7 +86,7 @@ example : covE { fpic := false, types := [] } (.neg ⟨none, 1, 1⟩ (.num ⟨no
 theorem C20_addr_partial (env : Env) (n : Node) (h : covA env n = true)
     (s s' : St) (ls : List Line) (hg : genAddr env n s = .ok ((), s', ls)) :
     delta ls = some ⟨0, 0⟩ ∧ s'.depth = s.depth := by
-  simpa using (addr_ok env n h).elim hg
+  simpa [Straight] using (addr_ok env n h).elim hg
 
 example : covA { fpic := false, types := [] } (.deref ⟨none, 1, 1⟩ (.var ⟨none, 1, 1⟩ none)) = true := by
   decide
@@ -96,7 +96,7 @@ example : covA { fpic := false, types := [] } (.deref ⟨none, 1, 1⟩ (.var ⟨
 theorem C20_stmt_partial (env : Env) (n : Node) (h : covS env n = true)
     (s s' : St) (ls : List Line) (hg : genStmt env n s = .ok ((), s', ls)) :
     delta ls = some ⟨0, 0⟩ ∧ s'.depth = s.depth := by
-  simpa using (stmt_ok env n h).elim hg
+  simpa [Straight] using (stmt_ok env n h).elim hg
 
 example : covS { fpic := false, types := [] }
     (.block ⟨none, 1, 1⟩ (.cons (.exprStmt ⟨none, 1, 1⟩ (.num ⟨none, 1, 1⟩ 1 0 0 0 0)) .nil)) = true := by
